@@ -43,9 +43,7 @@ def build_via_setters(cfg, p, seed):
 def k_fd(ctx, cfg, p, model_fed=False, via="ctor", seed=0):
     X = C.lib()
     data = bytes.fromhex(p["data"])
-    case = {"k": "fd", "cfg": cfg, "p": p if len(data) <= 64 else dict(p, data=p["data"][:32] + "..", data_len=len(data)), "model_fed": model_fed}
-    if len(data) > 64:
-        case["note"] = "data truncated in witness; regenerate with the seed"
+    case = {"k": "fd", "cfg": cfg, "p": p, "model_fed": model_fed}          # complete, so that a witness can be replayed as it is
     sm = p["seg_meta"]
     trivial = cfg["crc"] == 0 and cfg["large"] == 0 and cfg["idw"] == 1 and cfg["seqw"] == 1 and p["offset"] == 0 and sm is None
     feat = f"{C.cfg_class(cfg)}/meta={'y' if sm is not None else 'n'}"
